@@ -1082,6 +1082,9 @@ func collectEscapes(v ssa.Value, depth int, out *[]ssa.Instruction) bool {
 				}
 			}
 			*out = append(*out, x.(ssa.Instruction))
+		case *ssa.Phi, *ssa.ChangeType, *ssa.MakeInterface, *ssa.ChangeInterface, *ssa.Convert, *ssa.Slice, *ssa.Extract, *ssa.TypeAssert:
+			// the reference flows on under another SSA name: not tracked
+			return true
 		case ssa.Instruction:
 			*out = append(*out, x)
 		default:
